@@ -150,7 +150,7 @@ func (g *c17Gen) scalar() string {
 	return g.str(r.IntN(13))
 }
 
-const c17ASCII = " !#$%&'()*+,-./0123456789:;<=>?@ABCDEFGHIJKLMNOPQRSTUVWXYZ[]^_`abcdefghijklmnopqrstuvwxyz{|}~"
+const c17ASCII = " !#$%&'()*+,-./0123456789:;<=>?@ABCDEFGHIJKLMNOPQRSTUVWXYZ[]^_`abcdefghijklmnopqrstuvwxyz{|}~\x7f\x7f"
 
 var c17Escapes = []string{`\n`, `\"`, `\\`, "\\" + "u00e9", `\t`, `\/`, "\\" + "u3042"}
 
